@@ -70,7 +70,8 @@ func parseUUID(buf []byte) (uuid meta.UUID) {
 
 // parseInt parses a []byte of a string representation of an int64 value and returns the value
 func parseInt(buf []byte) (i int64) {
-	if buf[0] == '-' {
+	i = 1
+	if len(buf) > 0 && buf[0] == '-' {
 		buf = buf[1:]
 		i = -1
 	}
